@@ -248,7 +248,8 @@ pub fn gen(seed: u64, n: usize, out: &mut Out) {
                 let g = if gadget { plain_graph::<Undirected>(&a) } else { build_graph::<Undirected, u32>(&a, &mut r) };
                 view_hdr!(&g, |e| e.id().index(), g.edge_count(), g.edge_bound(), id, 0, out, dump_view);
                 let ids: Vec<usize> = (0..g.node_count()).collect();
-                let nt = 2 + r.below(3.min(n - 1));
+                // 6%: a single terminal (the answer is that node alone), 1%: none
+                let nt = if r.chance(6) { 1 } else if r.chance(1) { 0 } else { 2 + r.below(3.min(n - 1)) };
                 let mut pool = ids.clone(); shuffle(&mut r, &mut pool);
                 let terms: Vec<usize> = if gadget { let mut t: Vec<usize> = gterms.iter().map(|x| gperm[*x]).collect(); shuffle(&mut r, &mut t); t } else { pool[..nt.min(pool.len())].to_vec() };
                 if gadget { out.stat("kind_steiner_gadget"); }
